@@ -23,7 +23,7 @@ PLAN = {'quick': {'gen': 8}, 'thorough': {'gen': 16, 'tests': 1, 'docs': 1}}
 REQUIRED_BUCKETS = ['range:identical', 'range:nested', 'range:overlap', 'range:disjoint', 'grid:uniform', 'grid:nonuniform',
                     'op:add', 'op:subtract', 'op:multiply', 'op:divide', 'op:power', 'sampling:min', 'sampling:left',
                     'sampling:right', 'sampling:float', 'fill:0', 'fill:nonzero', 'unit:nm', 'unit:um', 'unit:m',
-                    'unit:angstrom', 'unit:mixed', 'scalar', 'vector', 'method:quadratic', 'method:cubic', 'blackbody']
+                    'unit:angstrom', 'unit:mixed', 'scalar', 'vector', 'method:quadratic', 'method:cubic', 'blackbody', 'density', 'update-sequence']
 REQUIRED_ANCHORS = ['probe:Spectrum._ufunc', 'anchor:_interp_common', 'anchor:_sampling', 'anchor:Spectrum.sample']
 REQUIRED_ORACLES = ['grid', 'value=op(interp)', 'new-object', 'commutative', 'unit-agnostic', 'operands-physically-unchanged',
                     'scalar-elementwise']
@@ -340,6 +340,63 @@ def workload(ctx, lentil):
                     ctx.check(w2.shape == w0.shape and np.allclose(w2, w0, rtol=1e-12) and np.allclose(v2_, v0, rtol=1e-12),
                               'operands-physically-unchanged', f'unit|operand-changed|{nm_}',
                               'an operand no longer describes the same physical spectrum', dict(desc, units=[x, y]))
+
+    # ---- per-wavelength densities in mixed units: add / subtract describe the same physical sum -----------------------
+    for i in range(n // 3):
+        (a0, a1), (b0, b1) = pair(rng, rels[i % 4])
+        wa = make_grid(rng, a0, a1, int(rng.integers(3, 30)), bool(rng.random() < 0.5))
+        wb = make_grid(rng, b0, b1, int(rng.integers(3, 30)), bool(rng.random() < 0.5))
+        va, vb = rng.uniform(0.1, 2, size=len(wa)), rng.uniform(0.1, 2, size=len(wb))
+        vu = sm.FLUX[int(rng.integers(0, 3))]
+        x, y = units[int(rng.integers(0, 4))], units[int(rng.integers(0, 4))]
+        opn = ['add', 'subtract'][i % 2]
+        # step chosen so that range/step is not an integer (the ceil() tie is not what is being looked at)
+        rngspan = max(wa[-1], wb[-1]) - min(wa[0], wb[0])
+        step = rngspan / (int(rng.integers(5, 40)) + 0.37)
+        desc = {'density': vu, 'op': opn, 'units': [x, y], 'rel': rels[i % 4], 'step_nm': step}
+        ctx.case(desc, ['density', f'unit:{x}', f'op:{opn}'] + (['unit:mixed'] if x != y else []))
+        A0, B0 = in_unit(R, wa, va, 'nm', vu), in_unit(R, wb, vb, 'nm', vu)
+        A1, B1 = in_unit(R, wa, va, x, vu), in_unit(R, wb, vb, y, vu)
+        try:
+            r0 = getattr(A0, opn)(B0, sampling=step)
+            r1 = getattr(A1, opn)(B1, sampling=step * sm.wave_factor('nm', x))
+        except Exception as e:
+            ctx.check(False, 'unit-agnostic', f'unit|density|raises={type(e).__name__}', str(e), desc)
+            continue
+        w0, v0 = phys(r0)
+        w1, v1 = phys(r1)
+        same = len(w0) == len(w1) and np.allclose(w0, w1, rtol=1e-9, atol=0)
+        if same:
+            tie = np.zeros(len(w0), bool)
+            for e_ in (wa[0], wa[-1], wb[0], wb[-1]):
+                tie |= np.abs(w0 - e_) <= 1e-9 * e_
+            same = bool(np.all(np.isclose(v0, v1, rtol=1e-8, atol=1e-11 * float(np.max(np.abs(v0)))) | tie))
+        ctx.check(same, 'unit-agnostic', 'unit|density' + ('|mixed' if x != y else ''),
+                  'the sum of two per-wavelength densities depends on the wavelength units the operands are expressed in', desc)
+
+    # ---- value updates between operations: a result must reflect the operand's current values --------------------------
+    for i in range(n // 4):
+        (a0, a1), (b0, b1) = pair(rng, rels[i % 4])
+        wa = make_grid(rng, a0, a1, int(rng.integers(3, 25)), True)
+        wb = make_grid(rng, b0, b1, int(rng.integers(3, 25)), True)
+        unit = units[int(rng.integers(0, 4))]
+        A = in_unit(R, wa, rng.uniform(0.1, 2, size=len(wa)), unit, 'photlam' if i % 3 == 0 else None)
+        B = in_unit(R, wb, rng.uniform(0.1, 2, size=len(wb)), unit, 'photlam' if i % 3 == 0 else None)
+        ctx.case({'update-sequence': i, 'unit': unit}, ['update-sequence'])
+        try:
+            with np.errstate(all='ignore'):
+                A * B                                           # online oracle
+                A.sample(np.asarray(A.wave)[:2], waveunit=unit)
+                A.value = np.asarray(A.value) * rng.uniform(0.2, 3, size=len(wa))      # value-only update
+                A * B                                           # online oracle compares with the *current* values
+                B.value = rng.uniform(0.1, 2, size=len(wb))
+                A + B
+                if i % 3 == 0:
+                    A.to('wlam')
+                    B.to('wlam')
+                    A + B
+        except Exception as e:
+            ctx.check(False, 'value=op(interp)', f'update-sequence|raises={type(e).__name__}', str(e), {'unit': unit})
 
     # ---- scalars and vectors ---------------------------------------------------------------------------
     for i in range(n // 2):
